@@ -13,7 +13,7 @@ import json,sys
 src,dst,pid,v=sys.argv[1:5]
 try: m=json.load(open(src))
 except Exception as e: m={"summary":"(meta.json unreadable: %s)"%e}
-m['property']=pid; m['variant']=v; m['round']=2
+m['property']=pid; m['variant']=v; m['round']=int(__import__('os').environ.get('SEED_ROUND','2'))
 m['demo']={'file':'demo_test.go.txt (copy to the path in demo_path.txt, run demo_cmd.txt)'}
 json.dump(m,open(dst,'w'),indent=1)
 PY
